@@ -39,6 +39,10 @@ pub struct TaskSpec {
   kind: Kind,
   /// delay in microseconds (sub-millisecond delays are legal durations)
   delay_us: Option<u32>,
+  /// k > 0: the delay is `far_base(k)` + delay_us (2^32 us, 2^32 ms, 2^32 s,
+  /// 2^64 ns: where a truncating conversion would wrap)
+  #[serde(default)]
+  far: u8,
 }
 
 #[derive(Clone, Debug, Serialize, Deserialize)]
@@ -158,7 +162,9 @@ impl Scenario for C19Des {
         _ => Kind::FutTimer { ms: *rng.pick(&[0, 1, 5, 5, 1001]) },
       };
       let delay_us = if rng.chance(1, 4) { None } else { Some(*rng.pick(&[0u32, 300, 999, 1000, 5000, 5000, 1_000_000, 1_200_500])) };
-      tasks.push(TaskSpec { kind, delay_us });
+      // one delayed task in fifteen is due 584 years ahead
+      let far = if delay_us.is_some() && rng.chance(1, 12) { rng.range(1, 4) as u8 } else { 0 };
+      tasks.push(TaskSpec { kind, delay_us, far });
     }
     let mut acts = Vec::new();
     let len = rng.range(4, 24 * deep);
@@ -217,7 +223,7 @@ impl Scenario for C19Des {
               _ => 0,
             },
           };
-          let delay = spec.delay_us.map(|d| Duration::from_micros(d as u64));
+          let delay = spec.delay_us.map(|d| if spec.far > 0 { far_base(spec.far) + Duration::from_micros(d as u64) } else { Duration::from_micros(d as u64) });
           {
             let mut l = logs.lock().unwrap();
             l[k].scheduled_at = Some(w.now());
@@ -305,7 +311,13 @@ impl Scenario for C19Des {
       }
     }
     // quiescence: no more cancels; let everything run
-    let idle = w.quiesce(2000, 600_000 * MS);
+    let until = w.now().saturating_add(600_000 * MS);
+    let mut idle = w.quiesce(2000, until);
+    // a task that is due months or centuries ahead is legitimately still waiting
+    // for its timer: nothing is ready and nothing falls due within the window
+    if !idle && case.tasks.iter().any(|t| t.far > 0) && w.ready_count() == 0 && w.shared.next_deadline().map_or(true, |d| d > until) {
+      idle = true;
+    }
     emitted += 1;
     subject.next(emitted);
     if violation.is_none() {
@@ -318,7 +330,7 @@ impl Scenario for C19Des {
       let l = logs.lock().unwrap();
       for (k, t) in l.iter().enumerate() {
         if let Kind::Repeat { limit, .. } = case.tasks[k].kind {
-          if t.scheduled_at.is_some() && t.cancelled_at_stamp.is_none() && t.runs.len() < limit as usize {
+          if t.scheduled_at.is_some() && t.cancelled_at_stamp.is_none() && case.tasks[k].far == 0 && t.runs.len() < limit as usize {
             violation = Some(Violation {
               rule: "c19.repeat-stopped-early".into(),
               site: "Repeat".into(),
@@ -383,7 +395,7 @@ fn check(case: &Case, logs: &Logs, probes: &[Arc<ProbeLog>]) -> Option<Violation
   for (k, l) in logs.iter().enumerate() {
     let spec = &case.tasks[k];
     let Some(t0) = l.scheduled_at else { continue };
-    let delay = spec.delay_us.unwrap_or(0) as u64 * 1000;
+    let delay = if spec.far > 0 { sim_ns(far_base(spec.far) + Duration::from_micros(spec.delay_us.unwrap_or(0) as u64)).min(u64::MAX - t0) } else { spec.delay_us.unwrap_or(0) as u64 * 1000 };
     let kind = format!("{:?}", spec.kind).split(|c: char| !c.is_alphanumeric()).next().unwrap().to_string();
     let extra = match spec.kind {
       Kind::FutTimer { ms } => ms as u64 * MS,
@@ -475,7 +487,7 @@ pub fn check_def() -> PropertyCheck {
     id: "C19",
     scenarios: vec![Box::new(C19Des), Box::new(C19Threads)],
     runs: (300_000, 24_000_000),
-    rule: "case = 1-4 tasks (Once/Sub/Repeat/Future) with delays {none,0,1,5}ms + action list (schedule, run ready task #k, advance clock, jump to next deadline, cancel handle, sample is_closed, emit to subject); non-trivial = a cancel landed before the first poll or while pending on a timer, or a run decision had >= 2 ready tasks; distinct = distinct (case, behaviour) hashes",
+    rule: "case = 1-4 tasks (Once/Sub/Repeat/Future) with delays {none,0,0.3,1,5,1000}ms, one delayed task in twelve 2^32 us / 2^32 ms / 2^32 s / 2^64 ns later, + action list (schedule, run ready task #k, advance clock, jump to next deadline, cancel handle, sample is_closed, emit to subject); non-trivial = a cancel landed before the first poll or while pending on a timer, or a run decision had >= 2 ready tasks; distinct = distinct (case, behaviour) hashes",
     assumptions: vec![
       "executor/timer/clock are the simulator's; schedule(), Remote, TaskHandle and the task types are the shipped code",
       "sequentially consistent execution; no weak-memory effects",
@@ -573,6 +585,7 @@ impl Scenario for C19Threads {
           _ => Kind::Fut { polls: rng.below(3) as u32 },
         },
         delay_us: if rng.chance(1, 2) { None } else { Some(*rng.pick(&[0u32, 400, 1000])) },
+        far: 0,
       })
       .collect();
     let cancels = (0..rng.range(1, n)).map(|_| rng.below(n)).collect();
